@@ -906,3 +906,26 @@ Definition spec_page_closed (m : mode) (n : nat) (ps : pscript) : pout :=
       end
   | MConn => attempts_closed (flat_map conn_fault (ps_faults ps)) 0 0 (ps_resp ps)
   end.
+
+(* ---- how many requests a page needs, in closed form (not extracted; used by theorems only) ----
+   [ends_here]: the request ends at fault i; the server sees one request per sent fault before
+   the ending fault, plus the ending attempt itself unless the request ended because no
+   connection could be acquired on the last target; one more (the successful attempt) when no
+   fault ends it.  [sres_of]: what the caller of a single-page call gets for each outcome. *)
+Definition ends_here (fs : list fault) (spare used i : nat) : bool :=
+  match ends_at fs spare used i with Some _ => true | None => false end.
+Definition requests_closed (fs : list fault) (spare used : nat) : nat :=
+  match find (ends_here fs spare used) (seq 0 (List.length fs)) with
+  | None => S (List.length (filter fault_sent fs))
+  | Some j =>
+      (List.length (filter fault_sent (firstn j fs)) +
+       match nth_error fs j with Some FConnFail => 0 | _ => 1 end)%nat
+  end.
+Definition sres_of (o : pout) : sres :=
+  match o with
+  | PoResp (RRows rows next) => SRows rows next
+  | PoResp RVoid => SVoid
+  | PoResp RNonResult => SErr e_unexpected
+  | PoErr e => SErr e
+  | PoIgnored _ => SVoid
+  end.
